@@ -10,7 +10,32 @@ ids=${*:-$(seq -f 'C%02g' 1 20)}
 for id in $ids; do
   ./check $id --tier quick --seed 1 > $COV/$id.log 2>&1; echo "$id rc=$?"
 done
-(cd harness && go tool covdata textfmt -i=$COV -o $COV/cover.txt && grep -v "^verif/harness" $COV/cover.txt > $COV/lib.txt; go tool cover -func=$COV/lib.txt > $COV/func.txt)
+# the race-built harness (C16) counts atomically, the others by set: one textfmt per build, merged by maximum
+python3 - "$COV" <<'PY'
+import glob, os, subprocess, sys
+cov = sys.argv[1]
+hit = {}
+for meta in glob.glob(os.path.join(cov, 'covmeta.*')):
+    h = meta.rsplit('.', 1)[1]
+    d = os.path.join(cov, 'm_' + h)
+    os.makedirs(d)
+    for f in glob.glob(os.path.join(cov, '*%s*' % h)):
+        if os.path.isfile(f):
+            os.rename(f, os.path.join(d, os.path.basename(f)))
+    out = os.path.join(cov, h + '.txt')
+    subprocess.run(['go', 'tool', 'covdata', 'textfmt', '-i=' + d, '-o', out], cwd='harness', check=True)
+    for l in open(out):
+        if l.startswith('mode:'):
+            continue
+        k, c = l.rsplit(' ', 1)
+        hit[k] = max(hit.get(k, 0), int(c))
+with open(os.path.join(cov, 'lib.txt'), 'w') as o:
+    o.write('mode: set\n')
+    for k, c in sorted(hit.items()):
+        if k.startswith('github.com/asticode/go-astits/'):
+            o.write('%s %d\n' % (k, 1 if c else 0))
+PY
+(cd harness && go tool cover -func=$COV/lib.txt > $COV/func.txt)
 tail -1 $COV/func.txt
-awk '$3+0 < 100.0' $COV/func.txt | sort -t$'\t' -k3 -n | head -80
-echo "profile: $COV/cover.txt"
+awk '$3+0 < 100.0' $COV/func.txt | sort -k3 -n | head -80
+echo "profile: $COV/lib.txt"
